@@ -138,7 +138,7 @@ def sval(t):
 
 
 class Ir2WasmHarness(Harness):
-    max_paths = 600
+    max_paths = 150
     max_decisions = 500
     cut_allowance = 10 ** 6
     W = 80
@@ -161,7 +161,7 @@ class Ir2WasmHarness(Harness):
             self.t0 = time.time()
         tier = os.environ.get("VERIF_TIER_ACTIVE", "quick")
         if core.ENG is not None and time.time() - self.t0 > 0.8 * JOB_TIMEOUT.get(tier, 280):
-            raise core.EngineError("job time budget exhausted before all paths were explored")
+            raise core.PathCut("job time budget")     # remaining paths are cut and counted (evidence: cut_paths, exhaustive=false)
         m1, m2, entry = build(self.prog, self.opt)
         inp = _tv.declare_inputs(mk, m1, entry, ptr_bits=PTR_BITS)
         inp.update(m1=m1, m2=m2, entry=entry)
@@ -322,6 +322,10 @@ def mk_ir2wasm(**kw):
     known = H.load_known(os.path.join(os.path.dirname(os.path.dirname(os.path.abspath(__file__))), "known_findings.json"), PROPERTY)
     with contextlib.redirect_stdout(io.StringIO()):
         res = H.run_harness(h, known)
+    if not counts and res["stats"].get("cut_paths") and all(e.get("kind") == "vacuous" for e in res["errors"]):
+        # every execution of this program is longer than the unwinding bound (e.g. a skeleton whose loops cannot be left)
+        res["errors"] = []
+        counts["all-paths-beyond-unwinding-bound"] = 1
     res["outcomes"].update(counts)
     res["programs"] = 1 if "compared" in counts else 0
     res["disagreements_checked"] = len(res["violations"]) + len(res["known_hits"])
@@ -338,7 +342,7 @@ def jobs(tier, seed):
     import random
     rnd = random.Random(seed)
     n4 = list(irprogs.all_names(4))
-    skel = list(irprogs.all_names(2)) + list(irprogs.all_names(3)) + rnd.sample(n4, 60 if tier == "quick" else 600)
+    skel = list(irprogs.all_names(2)) + list(irprogs.all_names(3)) + rnd.sample(n4, 600)[:60 if tier == "quick" else 600]
     for nm in skel:
         js.append(("mk_ir2wasm", dict(prog=nm, opt=None)))
     only = os.environ.get("VERIF_ONLY")
